@@ -323,7 +323,10 @@ class C09(Property):
                   "unchanged. Server (every sequence of AddRoutes/AddRoute/Start events on any number of rest.Server instances, "
                   "tables re-used, sub-sliced and shared, options in any order; heap model with aliasing): the user's tables are "
                   "never written, Start binds exactly the union of the prefix-extended tables as written, and a started server "
-                  "answers by the same case table over that union. The boolean judgement prop_ok applies to observed responses is "
+                  "answers by the same case table over that union; Start hands the router exactly that union, in order, up to the first "
+                  "rejected route; options other than WithPrefix and AddRoute-vs-AddRoutes are transparent; path.Clean effects (trailing "
+                  "slash, empty / dot / dot-dot segments, idempotence) and custom 404/405 handlers (relabel only) proved for every path. "
+                  "The boolean judgement prop_ok applies to observed responses is "
                   "proved equivalent to the case table, and every answer of the verified model passes it. Tied to the Go code by "
                   "differential execution through router.NewRouter() and rest.Server (NewServer/MustNewServer ... StartWithOpts) + httptest.")
     level_note = ("Trusted: Coq kernel + vm_compute; hand-written model (maps as association lists, the set of map-order-"
@@ -340,6 +343,12 @@ class C09(Property):
             "sub-slice, AddRoutes or AddRoute, WithMiddlewares, WithPrefix once or twice among timeout/maxbytes/priority/sse/jwt/"
             "jwt-transition/signature options in random order), Start of each server at a random point after its last mount; "
             "requests to every server derived from its own routes, other servers' routes, stacked prefixes and the unprefixed tables. "
+            "FIXED families, independent of the seed (every run): request segments spelled like the table's own pattern segments "
+            "(every route x position x spelling of {segments of the table, ':', '::', '*', ':id', '%3Aid', ...}, path and raw mode, router "
+            "and server kind); the ten spellings of the root path x all methods; trailing-slash / empty / dot variants of every path of a "
+            "table with inner nodes; patterns needing cleaning; shorter-after-longer registration order; several patterns matching one "
+            "path under different methods; raw request targets with query strings, ;params, encoded separators, absolute-URI form; "
+            "method-name vocabulary (39 names) on the router and at server level; the user's own recording router (WithRouter first / last). "
             "non-trivial = inside the side condition, a literal and a variable route compete at the same depth, at least one dispatch "
             "with variables and one 405 or 404 (server cases: a server started and some table is mounted more than once); "
             "distinct = canonical JSON hash of the case")
@@ -348,7 +357,9 @@ class C09(Property):
         "path.Clean / path.Join are modelled for rooted paths and compared with Go's on every generated pattern, prefix and path",
         "net/http request plumbing (request-line parsing and percent-decoding into URL.Path), context.WithValue / pathvar.Vars and "
         "http.NotFound are exercised but not modelled: the model starts from the URL.Path the server derived",
-        "constants (valid methods, Allow header and separator, 405, ':' and '/') are re-read from the source at every run (coq/gen/C09Consts.v)",
+        "constants (valid methods, Allow header and separator, 405, ':' and '/') are re-read from the source at every run (coq/gen/C09Consts.v); "
+        "a declaration whose shape the extractor does not recognise keeps the model's value (noted as NOT RE-READ) and is judged by execution only",
+        "the order rule for rest.RunOptions (WithRouter given last drops the earlier not-found / not-allowed / CORS options) is applied in tools/props/c09.py",
     ]
     assumptions = ["handlers are non-nil (errEmptyItem not modelled)",
                    "a request is served after all registrations (Handle is not concurrent with ServeHTTP); no AddRoutes after Start"]
@@ -594,6 +605,11 @@ class C09(Property):
             dict(base, tables=[users], servers=[srv(ownrouter_last=True, nf=True, na=True, cors=True, files=True, use=True), srv(nf=True, na=True)],
                  events=[mount(0, 0, 3, [["prefix", "/v1"]]), mount(1, 0, 3, [["prefix", "/v1"]]), {"ev": "start", "server": 0}, {"ev": "start", "server": 1}],
                  reqs=[[sv] + r + ["path"] for sv in ("0", "1") for r in probe + [["OPTIONS", "/v1/users"], ["GET", "/static/x.css"]]]),
+            # method names at server level: Start must die on every table whose method is not one of the seven, byte for byte
+            dict(base, tables=[[["GET", "/m/:v"], [m, "/m/:v"]] for m in ("get", "Get", "TRACE", "", "GET ", "CONNECT", "PROPFIND", "HEAD")],
+                 servers=[srv(ownrouter=(i % 2 == 0)) for i in range(8)],
+                 events=[mount(i, i, 2, [["prefix", "/p"]]) for i in range(8)] + [{"ev": "start", "server": i} for i in range(8)],
+                 reqs=[[str(i), "GET", "/p/m/1", "path"] for i in range(8)] + [["7", "HEAD", "/p/m/1", "path"], ["7", "get", "/p/m/1", "path"]]),
         ]
         return old + new + late + own
 
@@ -817,6 +833,17 @@ class C09(Property):
         t = [["GET", "/users/me"], ["POST", "/users/:id"], ["PUT", "/:a/me"], ["DELETE", "/users/:id"], ["PATCH", "/:a/:b"], ["HEAD", "/users/me"],
              ["GET", "/:a/x"], ["POST", "/y/:b"]]
         cases.append(R(t, every(["/users/me", "/users/7", "/x/me", "/x/y", "/y/x", "/users"], ALL_METHODS + ["TRACE"])))
+        # (f) request TARGETS as a client sends them (parsed by net/http like a request line): query strings and
+        #     ;parameters with '/' and ':' in them, '?' alone, encoded '/', ':' , '.', '%' in segments, absolute-URI form.
+        #     The router must route by URL.Path only: nothing after '?' takes part, an encoded '/' IS a separator once decoded
+        t = [["GET", "/users/:id"], ["GET", "/users/:id/posts/:pid"], ["POST", "/users"], ["GET", "/q"], ["PUT", "/a;b/:v"], ["DELETE", "/users/:id"]]
+        targets = []
+        for p in ("/users/7", "/users/7/posts/9", "/users", "/q", "/a;b/1", "/users/7/", "/users//7"):
+            targets += [p + x for x in ("", "?", "?x=1", "?p=/users/8", "?:id=9&/", "?a=b?c=d", ";v=1", ";/x", "%3Fx=1", "%23f", "/?x", "/.?x", "/..?x")]
+        targets += ["/users/a%2Fb", "/users/%2e%2e", "/users/%2E", "/users/7%2Fposts%2F9", "/users/%3Aid", "/users/%253Aid", "/%75sers/7", "/users/7%20",
+                    "/users/%00", "http://h/users/7?x", "http://h", "http://h?x=/users/7", "//h/users/7", "/users/7?%zz", "/users/%zz", "*"]
+        for i in range(0, len(targets), 36):
+            cases.append({"nf": False, "na": False, "regs": t, "reqs": [[m, x, "raw"] for x in targets[i:i + 36] for m in ("GET", "POST")]})
         return cases
 
     def _decorate(self, rng, reqs, nregs=None):
